@@ -110,6 +110,10 @@ func H_EPOCHS() {
 // epoch snapshots is stored (older ones have newer versions of their keys physically present) and restored.
 func H_C05E() {
 	cfg, c := vConfig()
+	delta := vBound("delta") == 1
+	if delta {
+		cfg.UseDeltaInterleaving()
+	}
 	DiskBlockSize = vBound("blocksize")
 	db := NewWithConfig(cfg)
 	E := vBound("epochs")
@@ -123,7 +127,23 @@ func H_C05E() {
 	g := ghosts[j]
 	dir := vFSDir() + "/c05e"
 	vAssert(snaps[j].Open(), "stored snapshot is open")
-	err := db.StoreToDisk(dir, snaps[j], vRange("concurr", 0, 1, vBound("maxconc")), nil)
+	// delta mode: during the backup (at the first item callback) every other snapshot is released, so the collector
+	// works through the garbage lists of older and newer epochs while the delta writers are active
+	closeDuring := delta && vChoice("closeduring", 0, 2) == 1
+	calls := 0
+	cb := func(e *ItemEntry) {
+		if calls == 0 && closeDuring {
+			for x := 0; x < E; x++ {
+				snaps[x].Close()
+			}
+			vQuiesce()
+			if db.GetLastGCSn() > 0 {
+				vReach("gc-ran-during-backup")
+			}
+		}
+		calls++
+	}
+	err := db.StoreToDisk(dir, snaps[j], vRange("concurr", 0, 1, vBound("maxconc")), cb)
 	vAssert(err == nil, "StoreToDisk succeeds")
 	if err != nil {
 		return
@@ -135,6 +155,9 @@ func H_C05E() {
 		return
 	}
 	vScanCheck(db2, c, snap2, &g, "restored snapshot")
+	if delta && db2.DeltaRestored > 0 {
+		vReach("delta-item-restored")
+	}
 	vReach("c05e-done")
 }
 
